@@ -254,6 +254,10 @@ func (s *Sim) taskBody(t *Task, site int, fn func()) {
 		s.signal()
 	}()
 	s.park(t, site)
+	// a goroutine or timer callback started by the code under test may itself be slow to start
+	if site != 0 && s.maybeStall(t) {
+		s.park(t, site)
+	}
 	fn()
 }
 
@@ -479,16 +483,24 @@ func (s *Sim) yield(site int) {
 		return
 	}
 	atomic.AddUint64(&s.Yields, 1)
-	if s.StallPm > 0 && s.Tape.Choose(StClock, 1000) >= 1000-s.StallPm {
-		d := stallDurations[s.Tape.Choose(StClock, len(stallDurations))]
-		s.mu.Lock()
-		s.Stalls = append(s.Stalls, Stall{At: s.Now(), D: d})
-		s.Faults["node.stall"]++
-		s.logLocked("stall " + t.Name + " " + d.String())
-		s.mu.Unlock()
-		time.Sleep(d) // virtual: the scheduler sees this task blocked and runs the others
-	}
+	s.maybeStall(t)
 	s.park(t, site)
+}
+
+// maybeStall: with probability StallPm/1000 the calling task sleeps on the virtual clock for a
+// tape-chosen time (a descheduled goroutine, a GC pause, a slow node).
+func (s *Sim) maybeStall(t *Task) bool {
+	if s.StallPm <= 0 || s.Tape.Choose(StClock, 1000) < 1000-s.StallPm {
+		return false
+	}
+	d := stallDurations[s.Tape.Choose(StClock, len(stallDurations))]
+	s.mu.Lock()
+	s.Stalls = append(s.Stalls, Stall{At: s.Now(), D: d})
+	s.Faults["node.stall"]++
+	s.logLocked("stall " + t.Name + " " + d.String())
+	s.mu.Unlock()
+	time.Sleep(d) // virtual: the scheduler sees this task blocked and runs the others
+	return true
 }
 
 // Woke must follow every operation that may have blocked outside the scheduler
